@@ -7,7 +7,7 @@ V = os.path.dirname(os.path.dirname(os.path.abspath(__file__)))
 CHECKS = [
  # id, engine, level, text, note, technique, design_ref
  ("C02", "seqx", "exploration",
-  "every constant expression tree of depth<=1 over 13 int/float atoms and {+,-,*,/,%,**} plus all depth-2 trees (left-, right-nested, unparenthesised) over a 7-atom (thorough 12-atom) set, in 16 syntactic positions (assignment, +=, both comparison sides, condition, index, int()/float()/string(), next to a capture on either side, parenthesised, settime, string concatenation with a literal / a capture, comparison with a string capture); compiled with and without the optimiser, run on 5 lines, stores compared bit-exactly",
+  "every constant expression tree of depth<=1 over 13 int/float atoms and {+,-,*,/,%,**} plus all depth-2 trees (left-, right-nested, unparenthesised) over a 7-atom (thorough 12-atom) set (atoms incl. 1000 so that results differ in digit count), in 16 syntactic positions (assignment, +=, both comparison sides, condition, index, int()/float()/string(), next to a capture on either side, parenthesised, settime, string concatenation with a literal / a capture, comparison with a string capture); compiled with and without the optimiser, run on 5 lines, stores compared bit-exactly",
   "deeper trees are not enumerated; the unoptimised compile is the reference (differential oracle), so a defect shared by both pipelines is invisible here (C01 covers it)",
   "exhaustive bounded program enumeration with a differential oracle on the real compiler and VM", "§3 C02"),
  ("C20", "gosim", "exploration",
@@ -19,8 +19,8 @@ CHECKS = [
   "arbitrary long inputs are not enumerated; termination is judged by a generous watchdog, never by a short deadline",
   "exhaustive small-scope input enumeration plus systematic single-edit neighbourhoods of a corpus, on the real compiler", "§3 C03"),
  ("C05", "seqx", "exploration",
-  "9 program families built around the state a VM carries between lines (strptime memo, time register, terminate flag, match registers, matched flag) × all (history, line) pairs with |history|<=2 (thorough 3) over each family's line alphabet; differential oracle: VM with history vs a freshly compiled VM populated with the same metric values",
-  "histogram metrics are not in the families (their state cannot be populated through the public API); datum timestamps are compared through timestamp() values stored in gauges",
+  "12 program families built around the state a VM carries between lines (strptime memo, time register, terminate flag incl. stop as the last instruction of a block and of the program, match registers, matched flag, runtime errors) × all (history, line) pairs with |history|<=3 (thorough 4) over each family's 4-6 line alphabet; differential oracle: VM with history vs a freshly compiled VM populated with the same metric values; values and the datum stamps (processing-time stamps masked) are compared",
+  "histogram metrics are not in the families (their state cannot be populated through the public API); processing-time stamps differ between the two VMs by construction and are masked; stamps set by the program are compared",
   "exhaustive bounded history enumeration with a differential oracle on the real VM", "§3 C05"),
  ("C07", "seqx", "exploration",
   "one program with a strptime site per layout (10 layouts), a settime site per value (7) and a plain site; all line sequences of length<=2 (thorough 3) × 4 zones × syslog-current-year on/off, plus a run crossing the memo size; oracle is time.Parse/ParseInLocation with the documented year substitution, and a clock bracket for processing time",
@@ -31,11 +31,11 @@ CHECKS = [
   "small-scope: longer label strings are not enumerated; the alphabet contains the separator and the escape character of the key encoding, which is what collisions are made of",
   "exhaustive small-scope enumeration of input pairs on the real code", "§3 C08"),
  ("C09", "seqx", "model_checking",
-  "explicit-state BFS to fixpoint over histories of {get/create, write, increment, remove, expire, remove-oldest, wrong-arity variants} on a 3-tuple universe (thorough: 4) for every metric kind/type/arity family; every transition runs the real Metric and is compared (enumeration, LabelValues, JSON, errors, slice/index consistency) with an ordered-list model",
-  "value domain bounded (int values 0..2, at most two observations per histogram datum) so that the state space is finite; dedupe on the model state is justified by the slice/index consistency check after every transition",
+  "explicit-state BFS to fixpoint over histories of {get/create, write, increment, remove, expire, remove-oldest, wrong-arity variants, take-over of the data by a re-registered declaration through Store.Add} on a 3-tuple universe (thorough: 4) for every metric kind/type/arity family (incl. a 0-key counter and label values holding the key encoding's escape and separator characters); every transition runs the real Metric and is compared (enumeration, LabelValues, JSON, errors, slice/index consistency) with an ordered-list model",
+  "value domain bounded (int values 0..2, at most two observations per histogram datum) so that the state space is finite; states are de-duplicated on the model state plus a reflective dump of the Metric object graph, so hidden implementation state is not merged away",
   "explicit-state model checking (BFS with state dedupe) of the real code against a reference model", "§3 C09"),
  ("C10", "seqx", "exploration",
-  "all stores with a limited metric (limit 0-3, thorough 0-4) of 0-4 (thorough 5) data with every age/expiry-mark combination (ties included) plus bystanders; real Store.Gc; survivors checked against a set-valued reference",
+  "all stores with a limited metric (limit 0-3, thorough 0-4) of 0-4 (thorough 5) data with every age/expiry-mark combination (ties included) plus bystanders, in three modes (plain; with the remaining data re-marked between two collections; a limited text metric); real Store.Gc; survivors checked against a set-valued reference",
   "Gc reads the wall clock: stamps are placed with 30-minute margins so clock drift cannot flip a verdict; the boundary age == expiry is therefore not exercised",
   "exhaustive small-scope enumeration of store contents on the real code", "§3 C10"),
  ("C15", "seqx", "exploration",
@@ -51,7 +51,7 @@ CHECKS = [
   "Exporter.Write/Gather and PushMetrics (library goroutines, real sockets) are not driven; Collect and writeSocketMetrics, which they call, are; HTTP handlers are called directly with a scripted ResponseWriter",
   "exhaustive fault-point enumeration under a controlled scheduler (exact end-state oracle: all locks free, no thread parked)", "§3 C12"),
  ("C13", "seqx", "exploration",
-  "all single-metric stores over 7 kind/type shapes x names {foo, foo-bar, 9bad} x key lists {[], [a], [a,b], [a-b], [prog], [le]} x all label-set contents of size<=2 over {x, empty, 0xFF} x value rotations (ints, floats incl. +-Inf/NaN/1e300, histogram observation sets), all pairs (thorough: a slice of triples) incl. same-name metrics of two programs, x prog label on/off x timestamps on/off, filtered by the property's precondition; Exporter.Write output parsed with expfmt.TextParser and compared as a set with series computed independently from the store",
+  "all single-metric stores over 7 kind/type shapes x names {foo, foo-bar, foo-bar-baz, 9bad} x key lists {[], [a], [a,b], [a-b], [prog], [le]} x all label-set contents of size<=2 over {x, empty, 0xFF} x value rotations (ints, floats incl. +-Inf/NaN/1e300, histogram observation sets; bucket ranges in declared and shuffled order, fractional and 1e6 bounds), all pairs (thorough: a slice of triples) incl. same-name metrics of two programs, x prog label on/off x timestamps on/off, filtered by the property's precondition; Exporter.Write output parsed with expfmt.TextParser and compared as a set with series computed independently from the store",
   "store domain is small-scope; expfmt's parser is trusted as the definition of valid exposition text",
   "exhaustive small-scope enumeration of stores against the exposition-format parser of the standard client library", "§3 C13"),
  ("C22", "seqx", "exploration",
@@ -63,7 +63,7 @@ CHECKS = [
   "default (deviation-free) schedule with a quiescence barrier after each step; states are de-duplicated on observable state plus a reflective dump of the whole Runtime object graph (unexported fields included), so hidden implementation state is not merged away",
   "explicit-state model checking of the implementation (multi-process BFS, replay from the initial state, differential oracle)", "§3 C06"),
  ("C14", "hsx", "model_checking",
-  "explicit-state BFS from 'V0 loaded' (depth 4-5; thorough 5-7) over histories of {load(Vi) for 10 versions of one file: identical, comment appended, declaration moved, kind / value type / keys changed, syntax error, name clashing with another program, body-only edit; lines creating label sets, one with an old stamp and pending expiry, marking expiry; Store.Gc; unload}, with and without a second program, and with OmitMetricSource: identical source changes neither store nor VM identity; a failed load leaves store and VM untouched and stays invisible in every continuation (differential: same history without the failed loads); a kept declaration keeps label sets, values and expiry marks; no two registered metrics of the program share a name and a label set",
+  "explicit-state BFS from 'V0 loaded' (depth 4-5; thorough 5-7) over histories of {load(Vi) for 10 versions of one file: identical, comment appended, declaration moved, kind / value type / keys changed, syntax error, name clashing with another program, body-only edit; lines creating label sets, one with an old stamp and pending expiry, marking expiry; Store.Gc; unload}, with and without a second program, with OmitMetricSource, with a metric size limit, with loads through LoadAllPrograms on a program directory, and for a scalar counter next to the dimensioned one: identical source changes neither store nor VM identity; a failed load leaves store and VM untouched and stays invisible in every continuation (differential: same history without the failed loads); a kept declaration keeps label sets, values and expiry marks; no two registered metrics of the program share a name and a label set; every metric's slice and index agree",
   "default schedule with quiescence barriers (reload racing a line in flight is C20); export observed as the store contents registered for the program; state key includes a reflective dump of the Runtime object graph",
   "explicit-state model checking of the implementation (multi-process BFS, replay from the initial state, invariants + differential oracle)", "§3 C14"),
  ("C16", "hsx", "model_checking",
@@ -107,7 +107,7 @@ CHECKS = [
   "deviation bound, not full interleaving coverage; memory-order effects on fields that are not hooked are outside the detector; races are identified by field and the pair of (file, function) sites",
   "stateless model checking of the implementation under a controlled scheduler with a source-level happens-before race detector", "§3 C11"),
  ("C17", "seqx", "exploration",
-  "for each of named pipe, unix and tcp stream sockets, unixgram and udp datagram sockets, on real kernel objects: a cancellation with no writer, and 1-2 writers (thorough 3) with every script of <=2 writes over {complete line, unterminated fragment} ending in close, every interleaving of the scripts, cancellation at the end (single writer and thorough: at every position), in settled mode (wait until the lines completed so far were delivered, and for a pipe's natural end) and burst mode; each event order runs in a crash-isolated worker process and a failure must reproduce three times: newline-terminated data arrives as lines in write order per connection / pipe, the tail of a connection or pipe that its writer closed arrives once, no delivered line mixes bytes of two connections or senders, the output ends after writer close (pipe) or cancellation, all goroutines finish, the process does not crash",
+  "for each of named pipe, unix and tcp stream sockets, unixgram and udp datagram sockets, on real kernel objects: a cancellation with no writer, and 1-2 writers (thorough 3) with every script of <=2 writes over {complete line, unterminated fragment, zero-length datagram (datagram sockets)} ending in close, every interleaving of the scripts, cancellation at the end (single writer and thorough: at every position), in settled mode (wait until the lines completed so far were delivered, and for a pipe's natural end) and burst mode; each event order runs in a crash-isolated worker process and a failure must reproduce three times: newline-terminated data arrives as lines in write order per connection / pipe, the tail of a connection or pipe that its writer closed arrives once, no delivered line mixes bytes of two connections or senders, the output ends after writer close (pipe) or cancellation, all goroutines finish, the process does not crash",
   "the goroutine schedule inside the stream relative to the kernel (network poller) is NOT controlled: only the order of environment events is exhaustive, so schedule-dependent defects are found when the kernel happens to produce them; framing under all chunkings is C15; stdin shares the fifo code path",
   "exhaustive enumeration of environment event orders on real kernel objects (not a controlled-scheduler exploration: see level_note)", "§3 C17, §6"),
 ]
